@@ -194,6 +194,60 @@ def tecmp_frame(rng):
     return hdr + payload
 
 
+def tecmp_good(rng):
+    """A TECMP message of a supported kind with arbitrary field values; mostly consistent, sometimes with an inner
+    length that does not fit.  No bytes beyond the declared payload (the property does not say what they mean)."""
+    r = rng.random()
+    bad = rng.random() < 0.25
+    if r < 0.3:
+        mt, dt = 3, rng.choice([2, 3])
+        n = rng.choice([0, 1, 2, 7, 8, 9, 12, 16, 32, 63, 64, rng.randrange(65)])
+        have = n - rng.choice([1, 2, n]) if bad and n > 0 else n
+        p = wire.rbytes(rng, 4) + [n] + wire.rbytes(rng, max(0, have))
+        if not bad:
+            p += wire.rbytes(rng, rng.choice([0, 0, 2, 3, 4]))
+    elif r < 0.5:
+        mt, dt = 3, 4
+        n = rng.choice([0, 1, 2, 8, rng.randrange(65)])
+        have = n - rng.choice([1, n]) if bad and n > 0 else n
+        p = [rng.randrange(256), n] + wire.rbytes(rng, max(0, have))
+        if not bad and rng.random() < 0.7:
+            p += [rng.randrange(256)]
+    elif r < 0.7:
+        mt, dt = 2, rng.choice([0, 2, 0x55])
+        k = rng.choice([0, 1, 2, 9, 40, rng.randrange(41)])
+        p = wire.rbytes(rng, 12) + wire.rbytes(rng, 12 * k) + wire.rbytes(rng, rng.choice([0, 0, 5, 11]))
+        if bad:
+            p = p[:rng.randrange(0, 12)]
+    elif r < 0.9:
+        mt, dt = 1, rng.choice([0, 2])
+        p = wire.rbytes(rng, rng.choice([36, 36, 40, 46, 60]))
+        if bad:
+            p = p[:rng.randrange(1, 36)]
+    else:
+        mt = rng.choice([0, 3, 3, 4, 0x0A, 0x33, 0xFF])
+        dt = rng.choice([8, 0x10, 0x20, 0x80, 0x55, 0xFF00, rng.randrange(65536)])
+        p = wire.rbytes(rng, rng.choice([1, 5, 20, 64]))
+    plen = len(p)
+    if rng.random() < 0.1:
+        plen = rng.choice([0, plen + 1, 0xFFFF])
+    hdr = [0, rng.randrange(256)] + wire.rbytes(rng, 2) + [rng.randrange(256), mt] + wire.be(dt, 2) + wire.rbytes(rng, 4) + \
+        wire.rbytes(rng, 4) + wire.rbytes(rng, 8) + wire.be(plen, 2) + wire.rbytes(rng, 2)
+    f = hdr + p
+    if rng.random() < 0.08:
+        f = f[:rng.randrange(0, len(f))]
+    return f
+
+
+def tecmp(seed, nepisodes, prefix):
+    rng = random.Random(seed)
+    for i in range(nepisodes):
+        ops = [{'op': 'new'}]
+        for _ in range(40):
+            ops.append({'op': 'decode', 'in': tecmp_good(rng), 'pendBefore': True})
+        yield {'id': '%s%d' % (prefix, i), 'comp': 'dec', 'ops': ops}
+
+
 def anyhist(seed, nepisodes, prefix, tecmp=True):
     rng = random.Random(seed)
     for i in range(nepisodes):
